@@ -4,7 +4,8 @@ from ..gen import KEY_POOL, PREFIX, hx, rng_for
 
 ENGINES = ["memkv", "badger", "tikv"]
 
-EXTRA_PROP_MODULES = [("KB.Props.C07Race", "KB.C07Race"), ("KB.Props.C07Par", "KB.C07Par"), ("KB.Props.C07Ranges", "KB.C07Ranges"), ("KB.Props.OrderC07", "KB.OrderC07")]
+EXTRA_PROP_MODULES = [("KB.Props.C07Race", "KB.C07Race"), ("KB.Props.C07Par", "KB.C07Par"), ("KB.Props.C07Ranges", "KB.C07Ranges"), ("KB.Props.OrderC07", "KB.OrderC07"),
+                      ("KB.Props.C07Expire", "KB.C07Expire")]
 
 
 def probe_reads(keys, revs):
@@ -133,6 +134,108 @@ def oracle(case):
     return hit
 
 
+# ---------------------------------------------------------------- the ttl pass that rides on the compaction (tikv)
+
+TTL_MS = 1000
+EXP_EVENT_KEYS = [PREFIX + b"/events/e1", PREFIX + b"/events/e2", PREFIX + b"/events/ns/e3"]
+EXP_OTHER_KEYS = [PREFIX + b"/a", PREFIX + b"/pods/events/p1", PREFIX + b"/eventsx/q", PREFIX + b"/z"]
+EXP_MASKS = ["", "m=0:c", "m=1:f", "m=2:c", "crash=1", "crash=3", "m=0:f,2:c", "m=1:c,3:c"]
+
+
+def expiry_case(seed, i, mask, directed=False):
+    """engine without native ttl, events ttl 1 s, model clock = the script's sleeps: history on Events and other keys ->
+    compaction (takes the mark) -> sleep past the ttl -> more changes (some Events are renewed: their newest change is
+    younger than the ttl; the others expire in the next pass) -> probes at revisions >= R -> `compact R` with a mask (its
+    timeout revision is the mark) -> the same probes. C07's oracle restricted to the keys that are NOT expired: every
+    key that is not an Event, every Event whose newest acknowledged change is above the mark. Directed: an Event created
+    before the mark and updated at c, a non-event write at b < c, R = b: the version the ttl pass must not take is what
+    reads in [b, c) return."""
+    r = rng_for(seed, "c07exp/%d" % i)
+    ev = r.sample(EXP_EVENT_KEYS, 2)
+    ot = r.sample(EXP_OTHER_KEYS, 2)
+    keys = ev + ot
+    sh = hist.Shadow()
+    vals = [b"v1", b"v2", b"v3", b"x" * 40]
+    lines = [hist.cfg_line("tikv", eventsttl=1, ttl=TTL_MS)]
+    if directed:
+        def w(kind, key, val=None):
+            exp = sh.keys[key][0] if kind != "create" else 0
+            lines.append("create %s %s" % (hx(key), hx(val)) if kind == "create" else "update %s %s %d" % (hx(key), hx(val), exp))
+            assert sh.write(kind, key, exp)
+            lines.append("rev")
+        w("create", ev[0], b"v1"); w("create", ot[0], b"n1"); w("create", ev[1], b"old")
+        if r.random() < 0.5:
+            w("update", ev[0], b"v1b")
+        lines += ["compact 0", "sleep 1300"]
+        w("update", ot[0], b"n2")
+        R = sh.dealt
+        w("update", ev[0], b"v2")
+        if r.random() < 0.5:
+            w("update", ot[0], b"n3")
+    else:
+        lines += hist.gen_writes(r, sh, r.randint(6, 14), keys, values=vals, p_ok=0.9)
+        lines += ["compact 0", "sleep 1300"]
+        mark = sh.dealt
+        renewed = [ev[0]] + r.sample(ot, r.randint(1, 2)) + ([ev[1]] if r.random() < 0.25 else [])
+        lines += hist.gen_writes(r, sh, r.randint(3, 8), renewed, values=vals, p_ok=0.9)
+        R = r.randint(mark, sh.dealt)
+    revs = sorted(set([R, sh.dealt, 0] + [r.randint(R, sh.dealt) for _ in range(2)]))
+    probes = probe_reads(keys, revs)
+    lines += ["echo before"] + probes + ["dump"]
+    lines.append(("compact %d %s" % (R, mask)).strip())
+    lines += ["echo after"] + probes + ["dump", "dellog"]
+    # a second, complete pass (no mark is old enough for it: plain compaction)
+    lines.append("compact %d" % R)
+    lines += ["echo after2"] + probe_reads(keys, [sh.dealt, 0])
+    return core.Case("backend", lines, {"engine": "tikv", "R": R, "skipped": [], "mask": mask, "expiry": True, "events": ev})
+
+
+def expiry_oracle(case):
+    """reads before == reads after on every key that is not expired, on the implementation's transcript"""
+    mark = None
+    newest = {}          # key -> revision of its newest acknowledged change (before the probes)
+    sect, cur = {"before": [], "after": []}, None
+    for line, out in zip(case.lines, case.impl):
+        t, o = line.split(), out.split()
+        if not t or not o:
+            continue
+        if t[0] == "echo":
+            cur = t[1]
+            continue
+        if t[0] == "compact":
+            if mark is None and len(o) == 2 and o[1].isdigit():
+                mark = int(o[1])
+            if cur == "before":
+                cur = None
+        if cur is None and not sect["after"] and t[0] in ("create", "update", "delete") and o[1] == "ok":
+            newest[hist.unhx(t[1])] = int(o[2])
+        if cur in ("before", "after") and t[0] in ("get", "list"):
+            sect[cur].append((line, out))
+    if mark is None:
+        return None
+
+    def spared(k):
+        return not k.startswith(PREFIX + b"/events/") or newest.get(k, 0) > mark
+
+    for (l1, o1), (l2, o2) in zip(sect["before"], sect["after"]):
+        t, t1, t2 = l1.split(), o1.split(), o2.split()
+        if l1 != l2 or "err" in t1[:2] or "err" in t2[:2]:
+            if l1 == l2 and t1[:2] != t2[:2] and ("err" in t1[:2]) != ("err" in t2[:2]):
+                return ("read `%s` answered %s before the compaction at %d and %s after" % (l1, o1[:120], case.meta["R"], o2[:120]), "read-changed")
+            continue
+        if t[0] == "get":
+            if not spared(hist.unhx(t[1])):
+                continue
+            d1, d2 = t1[2:], t2[2:]
+        else:
+            d1 = [kv for kv in hist.parse_kvs(t1[3]) if spared(kv[0])] + t1[2:3]
+            d2 = [kv for kv in hist.parse_kvs(t2[3]) if spared(kv[0])] + t2[2:3]
+        if d1 != d2:
+            return ("read `%s` returned %s before the compaction at %d (ttl pass with timeout revision %d) and %s after, on keys "
+                    "that are not expired (not an Event, or newest change above %d)" % (l1, o1[:200], case.meta["R"], mark, o2[:200], mark), "read-changed")
+    return None
+
+
 def race_case(seed, i, engine):
     """a compaction stepped through its storage calls, racing client writes to the keys being compacted
     (re-creates of deleted keys, updates, deletes) — on tikv the scan reads the snapshot of the timestamp taken
@@ -223,20 +326,24 @@ def check(rep, tier, seed):
     for j, m in enumerate(DIRECTED_MASKS):
         for e, eng in enumerate(ALL_ENGINES):
             cases.append(gen_case(seed, 700 + 10 * j + e, eng, m, directed=True))
+    # the same property with the ttl pass riding on the compaction (engine without native ttl): theorems KB.C07Expire
+    for j in range(6 if tier == "quick" else 60):
+        cases.append(expiry_case(seed, j, EXP_MASKS[(j // 2) % len(EXP_MASKS)] if j >= 2 else ["", "m=0:c"][j], directed=j % 3 != 2))
     races = [race_case(seed, i, ["tikv", "tikv", "memkv", "badger"][i % 4]) for i in range(24 if tier == "quick" else 600)]
     cases += races
     core.run_cases(cases)
     # what the CAS-class entries of the masks actually hit, per engine and kind of delete call
     hits = {}
     for c in cases:
-        if c.meta.get("race"):
+        if c.meta.get("race") or c.meta.get("expiry"):
             continue
         for kind in cas_hits(c):
             key = "%s/%s" % (c.meta["engine"], kind)
             hits[key] = hits.get(key, 0) + 1
     rep.cov["cas_class_delete_failures"] = dict(sorted(hits.items()))
     from .. import sched
-    pick = lambda c: (sched.oracle_c01(c) or sched.oracle_cf_justified(c) or hist.check_reads(c)) if c.meta.get("race") else oracle(c)
+    pick = lambda c: (sched.oracle_c01(c) or sched.oracle_cf_justified(c) or hist.check_reads(c)) if c.meta.get("race") else \
+        expiry_oracle(c) if c.meta.get("expiry") else oracle(c)
     if core.judge(rep, "C07", cases, pick):
         return
     # the injected failures must have been what the masks say (the check would be vacuous otherwise)
@@ -250,5 +357,7 @@ def check(rep, tier, seed):
     if missing:
         raise RuntimeError("C07: no failed-condition error was injected on: %s" % ", ".join(missing))
     rep.cov["exhaustive"] = False
-    rep.assumptions += ["non-event keys (expiry on non-TTL engines is C17's)",
+    rep.assumptions += ["C07/C07Race/C07Par: compaction without a timeout revision; with the ttl pass riding on it (tikv) the property is "
+                        "proved and checked for the keys that are not expired (KB.C07Expire, expiry_case: events ttl 1 s, model clock = "
+                        "the script's sleeps); what expiry may remove is C17's",
                         "delete failures / crash points injected at the KvStorage boundary; one partition per compaction range when a mask is given"]
